@@ -146,4 +146,7 @@ enum { OSG_END = 0, OSG_GHOST = 1, OSG_OTHER = 2 };
   _s->size -= _cnt; _s->n_erased += _cnt; REACH("set_erase"); \
   _s->nf_valid = 1; _s->nf_key = _k; \
   _cnt; })
+/* twins for the other spelling of an increment (`++it` for `it++` and vice versa): same effect.  X_inc yields the iterator after the step
+ * (exact); X_postinc made from X_inc is void, so a use of its value does not compile (UNDECIDED) instead of being modelled wrongly */
+#define OSA_postinc(it_) ((void)OSA_inc(it_))
 #endif
